@@ -495,7 +495,7 @@ var contentTypes = []string{
 	"*", "text/unknown", "",
 }
 
-var errTexts = []string{"", "x", "a\r\nb", "\n", "ü", "grpc-status: 0", " padded ", "ctl\x01\a\v\x7f", "bad\xffutf8", "tag\U000e0001", "q\"\\/<>&", "100% %s", strings.Repeat("k", 1024)}
+var errTexts = []string{"", "x", "a\r\nb", "\n", "lf only\ngrpc-status: 0", "cr only\rgrpc-status: 0", "x\ny\r\nz", "ü", "grpc-status: 0", " padded ", "ctl\x01\a\v\x7f", "bad\xffutf8", "tag\U000e0001", "q\"\\/<>&", "100% %s", strings.Repeat("k", 1024)}
 
 func errSpecs() []ErrSpec {
 	var out []ErrSpec
